@@ -295,7 +295,7 @@ var vfC08Methods = []string{"getBlock", "getTransaction", "getSignaturesForAddre
 
 func vfGenHTTP(t *rapid.T, w *vfC08World) (*vfC08Req, string) {
 	r := &vfC08Req{Kind: "http", Method: "POST", Path: "/"}
-	shape := rapid.SampledFrom([]string{"valid", "no-params", "null-params", "object-params", "wrong-types", "wrong-arity", "raw-garbage", "truncated", "batch", "other-method", "other-path", "api-path", "big-body", "empty-body"}).Draw(t, "shape")
+	shape := rapid.SampledFrom([]string{"valid", "odd-options", "odd-options", "no-params", "null-params", "object-params", "wrong-types", "wrong-arity", "raw-garbage", "truncated", "batch", "other-method", "other-path", "api-path", "big-body", "empty-body"}).Draw(t, "shape")
 	method := rapid.SampledFrom(vfC08Methods).Draw(t, "rpcMethod")
 	req := map[string]any{"jsonrpc": "2.0", "id": rapid.SampledFrom([]any{1, "a", nil, 1.5}).Draw(t, "id"), "method": method}
 	validParams := func() []any {
@@ -316,6 +316,23 @@ func vfGenHTTP(t *rapid.T, w *vfC08World) (*vfC08Req, string) {
 	switch shape {
 	case "valid":
 		req["params"] = validParams()
+	case "odd-options":
+		// a key that exists (so that the request gets past the lookup) with an options object in which every
+		// documented member is, one by one, null / of another type / a boundary value
+		p := validParams()[:min(1, len(validParams()))]
+		keys := map[string][]string{
+			"getBlock":                {"encoding", "commitment", "maxSupportedTransactionVersion", "transactionDetails", "rewards"},
+			"getTransaction":          {"encoding", "commitment", "maxSupportedTransactionVersion"},
+			"getSignaturesForAddress": {"limit", "before", "until", "commitment", "minContextSlot"},
+		}[method]
+		if len(keys) == 0 {
+			keys = []string{"encoding", "commitment", "x"}
+		}
+		opt := map[string]any{}
+		for _, k := range rapid.SliceOfNDistinct(rapid.SampledFrom(keys), 1, 3, rapid.ID[string]).Draw(t, "optKeys") {
+			opt[k] = rapid.SampledFrom([]any{nil, true, false, 0, 1, -1, 1.5, 1e30, "", "json", "base64", "base58", "finalized", "full", "none", "signatures", "accounts", []any{}, map[string]any{}, w.sigs[0]}).Draw(t, "optVal")
+		}
+		req["params"] = append(p, opt)
 	case "no-params":
 	case "null-params":
 		req["params"] = nil
@@ -475,7 +492,7 @@ func TestVfC08(t *testing.T) {
 		}
 		run.Class("regress-replayed")
 	}
-	run.Require("server:0", "server:1", "server:2", "http:no-params", "http:null-params", "http:wrong-types", "http:api-path", "grpc:StreamTransactions", "grpc:StreamBlocks", "grpc:Get", "filter-flag-absent", "malformed-account")
+	run.Require("server:0", "server:1", "server:2", "http:odd-options", "http:no-params", "http:null-params", "http:wrong-types", "http:api-path", "grpc:StreamTransactions", "grpc:StreamBlocks", "grpc:Get", "filter-flag-absent", "malformed-account")
 	rapid.Check(t, func(rt *rapid.T) {
 		var r *vfC08Req
 		var class string
